@@ -3,6 +3,7 @@ package checks
 import (
 	"encoding/json"
 	"fmt"
+	"reflect"
 	"sort"
 	"sync"
 	"testing"
@@ -176,4 +177,181 @@ func TestC05_ConcurrentMembership(t *testing.T) {
 		}
 		rt.Case(caseKey("concarr", op, wordsString(scripts)), busy >= 2, "concurrent:"+row.Family, func() any { return c })
 	})
+}
+
+// WindowWhen with source and boundary on different goroutines, every window
+// subscribed the moment it is emitted. The boundary only emits values, so the
+// definition leaves one degree of freedom - where the windows are cut - and the
+// validity predicate is: the windows, concatenated in order, are exactly the
+// source's values; every window is closed once the source has ended.
+
+type c05Win struct {
+	N       int  `json:"n"`
+	Ticks   int  `json:"ticks"`
+	End     byte `json:"end"`
+	DwellUs int  `json:"dwell_us"`
+	Reps    int  `json:"reps"`
+	Reentry bool `json:"reentrant_producer,omitempty"` // the source's next value is issued from a window's completion callback
+}
+
+func init() {
+	replayers["concurrent-windows"] = func(t *testing.T, raw json.RawMessage) {
+		var c c05Win
+		if err := json.Unmarshal(raw, &c); err != nil {
+			t.Fatal(err)
+		}
+		c.Reps *= 20
+		c05RunWin(t, c)
+	}
+}
+
+func c05RunWin(t rt.TB, c c05Win) {
+	for rep := 0; rep < c.Reps; rep++ {
+		rt.NewSink()
+		src := rt.NewManual("S0", rt.CtorUnsafeCtx)
+		bnd := rt.NewManual("S1", rt.CtorUnsafeCtx)
+		var mu sync.Mutex
+		var wins []*rt.Recorder[int]
+		next := 1
+		emitNext := func() {
+			mu.Lock()
+			v := next
+			next++
+			mu.Unlock()
+			if v <= c.N {
+				src.Emit(rt.N(v))
+			}
+		}
+		outer := rt.NewRecorder[ro.Observable[int]]()
+		outer.Hook = func(k byte, _ ctxT, v any, err error) {
+			if k != 'N' {
+				return
+			}
+			r := rt.NewRecorder[int]()
+			if c.DwellUs > 0 || c.Reentry {
+				r.Hook = func(k byte, _ ctxT, v any, err error) {
+					if c.DwellUs > 0 {
+						time.Sleep(time.Duration(c.DwellUs) * time.Microsecond)
+					}
+					if c.Reentry && k == 'C' {
+						emitNext() // a producer driven by the closing of a window
+					}
+				}
+			}
+			mu.Lock()
+			wins = append(wins, r)
+			mu.Unlock()
+			v.(ro.Observable[int]).Subscribe(r)
+		}
+		sub := ro.WindowWhen[int, int](bnd.Observable())(src.Observable()).Subscribe(outer)
+		if c.Reentry {
+			// one goroutine: each tick closes a window, whose completion callback
+			// issues the source's next value - it belongs to the window just opened
+			for i := 0; i < c.Ticks; i++ {
+				emitNext()
+				bnd.Emit(rt.N(100 + i))
+			}
+			for {
+				mu.Lock()
+				done := next > c.N
+				mu.Unlock()
+				if done {
+					break
+				}
+				emitNext()
+			}
+		} else {
+			var wg sync.WaitGroup
+			start := make(chan struct{})
+			wg.Add(2)
+			go func() {
+				defer wg.Done()
+				<-start
+				for i := 1; i <= c.N; i++ {
+					emitNext()
+				}
+			}()
+			go func() {
+				defer wg.Done()
+				<-start
+				for i := 0; i < c.Ticks; i++ {
+					bnd.Emit(rt.N(100 + i))
+				}
+			}()
+			close(start)
+			wg.Wait()
+		}
+		switch c.End {
+		case 'C':
+			src.Emit(rt.C())
+		case 'E':
+			src.Emit(rt.E(1))
+		}
+		mu.Lock()
+		ws := append([]*rt.Recorder[int](nil), wins...)
+		mu.Unlock()
+		var flat []int
+		desc := ""
+		for _, w := range ws {
+			tr := w.Trace()
+			desc += fmt.Sprint(tr.Vals)
+			for _, v := range tr.Vals {
+				flat = append(flat, v.(int))
+			}
+		}
+		want := seqInts(c.N + 1)[1:]
+		where := fmt.Sprintf("WindowWhen, source 1..%d then %c and boundary (%d ticks) (repetition %d; producer driven by window completions on one goroutine: %v, otherwise two goroutines): windows %s", c.N, c.End, c.Ticks, rep, c.Reentry, desc)
+		if !reflect.DeepEqual(append([]int{}, flat...), append([]int{}, want...)) {
+			class := "values-reordered-or-duplicated-across-windows"
+			if isSubsequence(flat, want) {
+				class = "value-lost-at-a-window-switch"
+			}
+			if c.Reentry {
+				class = "value-issued-from-a-window-completion-lost"
+			}
+			rt.Report(t, rt.Failure{Property: "C05", Check: "concurrent-windows", Op: "WindowWhen", Class: class, Msg: where + ": concatenated they are not the source's values", Case: c})
+			sub.Unsubscribe()
+			return
+		}
+		if c.End != 0 {
+			for i, w := range ws {
+				if w.Trace().End == 0 {
+					rt.Report(t, rt.Failure{Property: "C05", Check: "concurrent-windows", Op: "WindowWhen", Class: "window-left-open", Msg: fmt.Sprintf("%s: window #%d is still open after the source ended", where, i), Case: c})
+					sub.Unsubscribe()
+					return
+				}
+			}
+		}
+		for i, w := range ws {
+			if g := w.Grammar(); g != "" {
+				rt.Report(t, rt.Failure{Property: "C05", Check: "concurrent-windows", Op: "WindowWhen", Class: "grammar", Msg: fmt.Sprintf("%s: window #%d: %s", where, i, g), Case: c})
+				sub.Unsubscribe()
+				return
+			}
+		}
+		sub.Unsubscribe()
+	}
+}
+
+func TestC05_ConcurrentWindows(t *testing.T) {
+	reps := 20
+	if rt.Thorough() {
+		reps = 300
+	}
+	rapid.Check(t, func(t *rapid.T) {
+		c := c05Win{N: rapid.IntRange(1, 6).Draw(t, "n"), Ticks: rapid.IntRange(1, 4).Draw(t, "ticks"), End: rapid.SampledFrom([]byte{'C', 'E', 0}).Draw(t, "end"),
+			DwellUs: rapid.SampledFrom([]int{0, 0, 20}).Draw(t, "dwell"), Reentry: rapid.IntRange(0, 3).Draw(t, "reentry") == 0, Reps: reps}
+		c05RunWin(t, c)
+		rt.Case(caseKey("concwin", c.N, c.Ticks, c.End, c.DwellUs, c.Reentry), c.N >= 2, "concurrent:windows", func() any { return c })
+	})
+}
+
+func isSubsequence(sub, full []int) bool {
+	j := 0
+	for _, v := range full {
+		if j < len(sub) && sub[j] == v {
+			j++
+		}
+	}
+	return j == len(sub)
 }
